@@ -80,18 +80,21 @@ class ExecBase:
     def heap_arr(self, name: str, heap=None):
         heap = self.cur_heap() if heap is None else heap
         if name not in heap:
+            # A field is materialised lazily. Its array is named after the *epoch* of the heap it is first read in: every
+            # havoc-everything (suspension point, loop with a suspension) starts a new epoch, so a field first touched after
+            # such a havoc is NOT identified with its value before it.  Same epoch + same field => same array (deterministic name).
             ty = self.field_ty(name)
-            arr = z3.Const('H0.' + name, z3.ArraySort(Ref, ty.sort()))
-            # the same initial array must be visible in every snapshot taken later
+            ep = heap.get('$epoch', 0)
+            arr = z3.Const('H%d.%s' % (ep, name), z3.ArraySort(Ref, ty.sort()))
             heap[name] = arr
-            if heap is not self.st.heap and name not in self.st.heap:
-                self.st.heap[name] = arr
-            if self.entry is not None and name not in self.entry['heap']:
-                self.entry['heap'][name] = arr
-            if self.seg is not None and name not in self.seg['heap']:
-                self.seg['heap'][name] = arr
-            for s in self.old_stack:
-                s['heap'].setdefault(name, arr)
+            others = [self.st.heap, self.entry['heap'] if self.entry is not None else None, self.seg['heap'] if self.seg is not None else None,
+                      getattr(self, 'frame_base', {}).get('heap0')] + [s['heap'] for s in self.old_stack]
+            for h in others:
+                if h is not None and h is not heap and h.get('$epoch', 0) == ep and name not in h:
+                    h[name] = arr
+            fb = getattr(self, 'frame_base', None)
+            if fb is not None and ep != 0 and self.st.heap.get(name) is arr:
+                fb['heap'].setdefault(name, arr)     # first touched in this epoch: that value is the baseline of this task's own writes
         return heap[name]
 
     def read_field(self, ref, name: str) -> V:
